@@ -99,6 +99,14 @@ def run(spec):
     return {'viol': [(kind, dict(det, exc=str(e)[:200]))], 'nt': True, 'cls': cls + ['raised'], 'dc': 0}
   try:
     cf, pw, cu = ts.counterfactual, ts.pointwise_difference, ts.cumulative_effect
+    if abs(spec['level'] - 0.9) < 1e-12 and spec['tails'] == 1:
+      # documented defaults: level=0.9, tails=1
+      ts_d = m.estimate_pointwise_and_cumulative_effect(metric=metric)
+      for a_, b_ in ((ts_d.counterfactual, cf), (ts_d.pointwise_difference, pw), (ts_d.cumulative_effect, cu)):
+        if not all(util.deep_eq(np.asarray(a_[c], float), np.asarray(b_[c], float), 1e-12) for c in ('lower', 'estimate', 'upper')):
+          viol.append(('C18:defaults', det))
+          break
+      cls.append('defaults-checked')
     for name, fr, want_dates in (('counterfactual', cf, dates3), ('pointwise', pw, dates3), ('cumulative', cu, dates_an)):
       got_dates = [str(x)[:10] for x in fr['date'].tolist()]
       if got_dates != [str(x)[:10] for x in want_dates]:
